@@ -201,6 +201,8 @@ def gen_build(r):
             name = "sds%d" % i
             rank = r.choice([1, 1, 2, 2, 3])
             kind = r.choice(["fixed", "fixed", "unlim", "chunk", "chunkcomp", "comp", "ext"])
+            if any(x_[2] for x_ in inv.sds) and r.random() < 0.5:
+                kind = "unlim"      # several record datasets holding different numbers of records
             dims = [r.choice([2, 3, 5, 8]) for _ in range(rank)]
             if kind == "unlim":
                 dims[0] = 0
@@ -220,7 +222,7 @@ def gen_build(r):
                 L.append("sdsetexternalfile %d %d 0" % (i, x))
             if r.random() < 0.9:
                 if kind == "unlim":
-                    L.append("sdwritedata %d %d %d 0" % (i, r.randrange(100), r.choice([1, 3, 4])))
+                    L.append("sdwritedata %d %d %d 0" % (i, r.randrange(100), r.choice([1, 2, 3, 4, 5])))
                 else:
                     L.append("sdwritedata %d %d 0 0" % (i, r.randrange(100)))
             if r.random() < 0.5:
@@ -354,7 +356,7 @@ def ro_call(r, inv):
         (3, "sdcreate %d 0 %s %d %d %s" % (d, name_of("sds", "ns"), r.randrange(6), r.choice([1, 2]), "4 3")),
         (6, "sdselect %d 0 %d" % (d, r.randrange(max(1, len(inv.sds) + 1)))),
         (5, "sdwritedata %d %d %d 0" % (d, r.randrange(50), r.choice([0, 0, 1, 2]))),
-        (4, "sdreaddata %d" % d),
+        (4, "sdreaddata %d" % d), (4, "sdreadrec %d %d %d" % (d, r.choice([0, 0, 1, 3]), r.choice([1, 2, 4, 5, 9]))),
         (2, "sdsetattr 0 0 0 %s %d %d %d" % (a_sd[1], a_sd[2], a_sd[3], r.randrange(50))),
         (3, "sdsetattr 1 %d 0 %s %d %d %d" % (a_sds[0], a_sds[1], a_sds[2], a_sds[3], r.randrange(50))),
         (2, "sdsetattr 2 %d 0 %s %d %d %d" % (a_dim[0], a_dim[1], a_dim[2], a_dim[3], r.randrange(50))),
@@ -447,9 +449,14 @@ def gen_ro_program(r, inv):
         t = c.split()
         # inquiry - mutator - inquiry: a refused request must leave no trace in what the handle shows
         pfx = next((p_ for p_ in ("vs", "sd", "gr", "v") if t[0].startswith(p_) and t[0] not in ("vstart", "vend")), None)
-        if pfx and t[0] in MUT_ALL and r.random() < 0.45 and len(t) > 1 and t[1].isdigit():
+        if pfx and t[0] in MUT_ALL and r.random() < 0.6 and len(t) > 1 and t[1].isdigit():
             slot = t[2] if t[0] in ("sdsetattr", "grsetattr") and len(t) > 2 else t[1]
-            L += [INFO[pfx] % slot, c, INFO[pfx] % slot]
+            # a READING call on the same handle first (it leaves access ids / caches attached: the refusal of the mutator
+            # must not depend on that), then inquiry - mutator - inquiry - the same read again
+            rd = {"vs": ["vsread %s 1", "vsseek %s 0"], "v": ["vgetattr %s 0", "vinfo %s"], "sd": ["sdreaddata %s", "sdreadchunk %s", "sdreadattr 1 %s 0 0"],
+                  "gr": ["grreadimage %s", "grreadimage %s", "grreadlut %s", "grgetattr 1 %s 0"]}[pfx]
+            pre = [r.choice(rd) % slot] if r.random() < 0.7 else []
+            L += pre + [INFO[pfx] % slot, c, INFO[pfx] % slot] + pre
         else:
             L.append(c)
     L += ["closeall", "check", "dump 0"]
@@ -517,8 +524,28 @@ def gen_rw_noop(r, inv):
             "grselect 0 0 0", "grreadimage 0", "grinfo 0", "grendaccess 0", "vsattachn 0 0 vd0 r", "vsinfo 0", "vsdetach 0",
             "vattachn 0 0 vg0 r", "vinfo 0", "vdetach 0", "anselect 0 0 0 2", "anreadann 0", "anendaccess 0", "hcache 0 1", "hcache 0 0",
             "sdfileinfo 0", "grfileinfo 0", "vlone 0", "vslone 0", "newref 0"]))
+    # plus readers drawn from the full call list (mutators filtered out), with their boundary arguments
+    for j in range(min(3, len(inv.sds))):
+        L.append("sdselect %d 0 %d" % (j, j))
+    for j in range(min(3, len(inv.images))):
+        L.append("grselect %d 0 %d" % (j, j))
+    for j, v in enumerate(inv.vdatas[:3]):
+        L.append("vsattachn %d 0 %s r" % (j, v[0]))
+    k = 0
+    while k < 25:
+        c = ro_call(r, inv)
+        t = c.split()
+        k += 1
+        if t[0] in MUT_ALL or t[0] in NOT_READERS or (t[0] in ("startaccess", "vattach", "vsattach", "vattachn", "vsattachn") and (t[-1] in ("w", "3", "2", "19", "35"))):
+            continue
+        L.append(c)
     L += ["closeall", "check", "dump 0"]
     return L
+
+
+NOT_READERS = set("""startbitwrite bitwrite hlconvert setlength appendable setaccesstype sdsetaccesstype grsetaccesstype vsfdefine vssetinterlace
+vssetblocksize vssetnumblocks vsappendable sdsetfillmode sdsetblocksize ancreate ancreatef hcache newref startwrite hxcreate hlcreate hccreate
+hmccreate""".split())
 
 
 def gen_history(r, name):
@@ -631,6 +658,11 @@ def report(ctx, hist, flat, R, S, lo, hi, seen_sigs, budget, pre):
     vs = violations_of(S, lo, hi)
     for i, codes in vs:
         sig = sig_of(flat[i], codes, i, pre)
+        if sig == "dump:objects-changed" and any(" empty=1" in R[j] for j in range(lo, i)) and \
+                any(flat[j].split()[:1] in (["hopen"], ["sdstart"]) and flat[j].split()[-2 if flat[j].startswith("hopen") and len(flat[j].split()) > 3 else -1] in ("3", "2")
+                    for j in range(lo, i)):
+            # a write-mode session read a dataset / dimension scale that holds no data yet (the harness marks those calls)
+            sig += ":after-read-of-empty-dataset-in-write-mode"
         if sig in seen_sigs:
             continue
         seen_sigs.add(sig)
